@@ -3875,6 +3875,10 @@ func _select(n *node) {
 	}
 
 	n.exec = func(f *frame) bltn {
+		// The select statement may be executed by several goroutines at once:
+		// each execution works on its own copy of the case vector.
+		cases := append([]reflect.SelectCase(nil), cases...)
+
 		f.mutex.RLock()
 		cases[nbClause] = f.done
 		f.mutex.RUnlock()
